@@ -369,9 +369,19 @@ def case(item):
             rcf = copy.deepcopy(rc0)
             ctype = kw.pop("ctype", 23)
             pt = kw.pop("pt", b"forged")
+            expect_ok = kw.pop("_expect_ok", False)
             try:
                 fr = rcf.seal(direction, ctype, pt, **kw)
             except Exception as e:  # noqa
+                return
+            if expect_ok:
+                # a well-formed record of the same shape must be accepted
+                obs = deliver_and_read(base, direction, fr)
+                fails = [] if obs["got"] == pt and obs["result"][0] in (
+                    "stall", "pending") else [
+                    "well-formed long-padded record not delivered: %r %r" % (
+                        obs["got"][:20], obs["result"])]
+                note(cls, dict(key, fault=cls), obs, fails)
                 return
             run_fault(cls, dict(key, fault=cls), [fr] + R, 0)
         if tls13:
@@ -402,6 +412,20 @@ def case(item):
                       if (bs - 1 - (6 + info.maclen) % bs) > 0 else bs +
                       (bs - 1 - (6 + info.maclen) % bs),
                       pad_bytes=None) if False else None
+            if info.mode == "CBC" and not (etm and v > (3, 0)) and \
+                    v > (3, 0):
+                # MAC-then-encrypt with long (legal) padding: a wrong MAC
+                # must be found wherever the MAC ends up relative to the
+                # last 256 bytes / hash blocks of the body
+                for pad in (255, 240, 224, 208):
+                    for n in range(0, 66) if tier == "quick" and pad == 255 \
+                            else (0, 13, 44, 63):
+                        forge("wrong-mac-long-pad", {"pad": pad, "len": n},
+                              bad_mac=True, pad_len=pad, pt=b"P" * n)
+                        if n in (0, 44):
+                            forge("good-mac-long-pad-control",
+                                  {"pad": pad, "len": n}, pad_len=pad,
+                                  pt=b"P" * n, _expect_ok=True)
             forge("outer-version", {"v": "0300"},
                   outer_version=(3, 0) if v != (3, 0) else (3, 1))
             forge("outer-type-mismatch", {}, outer_type=22)
